@@ -145,6 +145,13 @@ pub fn run_workload(prop: &str, sub: u64, acc: &mut Acc, ctx: &Ctx, thorough: bo
         ("read".into(), RunSpec { args: with_path(&["--no-mmap"]), plan: vec!["noop=1".into()], ..RunSpec::default() }),
         ("stdin".into(), RunSpec { args: fl.clone(), stdin: Some(w.text.clone()), ..RunSpec::default() }),
     ];
+    // stat of the opened file fails (the open and the reads work): the searcher only loses a
+    // size hint, and a memory map falls back to reads
+    let errno = [5, 13, 116][rng.below(3)];
+    runs.push(("read+nofstat".into(), RunSpec { args: with_path(&["--no-mmap"]), plan: vec![format!("fstat_err=/w/doc.txt:{errno}")], ..RunSpec::default() }));
+    runs.push(("mmap+nofstat".into(), RunSpec { args: with_path(&["--mmap"]), plan: vec![format!("fstat_err=/w/doc.txt:{errno}")], ..RunSpec::default() }));
+    // standard input is a pipe: reads cut into small pieces, one of them answered EINTR
+    runs.push(("stdin+pipefaults".into(), RunSpec { args: fl.clone(), stdin: Some(w.text.clone()), plan: vec![format!("pipe_eintr={}", rng.below(5)), format!("pipe_frag={}", 1 + rng.below(500))], ..RunSpec::default() }));
     let nfrag = if thorough { 6 } else { 2 };
     for _ in 0..nfrag {
         let seed = 1 + rng.below(200);
@@ -163,6 +170,9 @@ pub fn run_workload(prop: &str, sub: u64, acc: &mut Acc, ctx: &Ctx, thorough: bo
         acc.evals += 1;
         acc.faults.add("read-fragmentation", got.fired("read_frag"));
         acc.faults.add("read-EINTR", got.fired("read_eintr"));
+        acc.faults.add("fstat-of-open-file-fails", got.fired("fstat_err"));
+        acc.faults.add("pipe-read-EINTR", got.fired("pipe_eintr"));
+        acc.faults.add("pipe-read-fragmentation", got.fired("pipe_frag"));
         acc.faults.inc(&format!("route:{}", name.split('+').next().unwrap().trim_end_matches(char::is_numeric)));
         digest = digest_out(digest, &got);
         let body = |summary_ref: &RunOut| json!({"engine": "procsim", "kind": "c03", "subseed_workload": sub, "route": name, "run": spec_json(&spec), "input": show(&w.text), "expected_by_model": show(&expected), "other_route": summary_ref.to_json(), "observed": got.to_json()});
@@ -178,6 +188,56 @@ pub fn run_workload(prop: &str, sub: u64, acc: &mut Acc, ctx: &Ctx, thorough: bo
                         acc.violation("C02", &format!("cli-routes-differ:{}-vs-{}", n0, name.split('+').next().unwrap()), format!("rg {:?}: output via {name} differs from output via {n0} (exit {} vs {}; {} vs {} bytes)", fl, got.code, r0.code, got.stdout.len(), r0.stdout.len()), sub, body(r0));
                     }
                 }
+            }
+        }
+    }
+    // Two files searched one after the other by the same searcher, half of the time with -U
+    // and a pattern that can match a line terminator (it selects the same lines as foo): the
+    // whole-file multi-line buffer is reused from file to file. With and without the stat of
+    // the second, already opened file failing.
+    if !w.stop_nm {
+        let npre = 1 + rng.below(20);
+        let mut pre = gen_text(&mut rng, npre, 3);
+        if rng.chance(1, 4) {
+            pre.pop();
+        }
+        std::fs::write(root.join("a-pre.txt"), &pre).unwrap();
+        let ml = rng.chance(1, 2);
+        let map = if rng.chance(1, 3) { "--mmap" } else { "--no-mmap" };
+        let mut targs: Vec<String> = fl[..fl.len() - 1].to_vec();
+        if ml {
+            targs.extend(["-U".into(), "foo\\n?".into()]);
+        } else {
+            targs.push("foo".into());
+        }
+        targs.extend([map.into(), "w/a-pre.txt".into(), "w/doc.txt".into()]);
+        let first_out = model_output(&W { text: pre.clone(), ..w.clone() });
+        let mut exp2 = first_out.clone();
+        if !w.passthru && (w.a > 0 || w.b > 0) && !first_out.is_empty() && !expected.is_empty() {
+            exp2.extend_from_slice(if w.crlf { b"--\r\n" as &[u8] } else { b"--\n" });
+        }
+        exp2.extend_from_slice(&expected);
+        let exp2_code = if (model_has_match(&W { text: pre.clone(), ..w.clone() }) && !first_out.is_empty()) || exp_code == 0 { 0 } else { 1 };
+        let mut base: Option<RunOut> = None;
+        for (name, plan) in [("twofiles", vec!["noop=1".to_string()]), ("twofiles+nofstat", vec![format!("fstat_err=/w/doc.txt:{errno}")])] {
+            let spec = RunSpec { args: targs.clone(), plan, ..RunSpec::default() };
+            let got = ctx.run(&scratch, &spec, 60);
+            acc.evals += 1;
+            acc.faults.add("fstat-of-open-file-fails", got.fired("fstat_err"));
+            acc.faults.inc(&format!("route:{name}{}", if ml { "(-U)" } else { "" }));
+            digest = digest_out(digest, &got);
+            let body = |other: &RunOut| json!({"engine": "procsim", "kind": "c03", "subseed_workload": sub, "route": name, "run": spec_json(&spec), "input": show(&w.text), "first_file": show(&pre), "expected_by_model": show(&exp2), "other_route": other.to_json(), "observed": got.to_json()});
+            if prop == "C03" {
+                if got.stdout != exp2 || got.code != exp2_code || !got.stderr.is_empty() {
+                    acc.violation("C03", &format!("cli-differs-from-model:{name}{}", if ml { "(-U)" } else { "" }), format!("rg {:?}: output for two files differs from the grep model's rendering (exit {} expected {exp2_code}; {} vs {} bytes)", targs, got.code, got.stdout.len(), exp2.len()), sub, body(&got));
+                }
+            } else if let Some(b) = &base {
+                if got.stdout != b.stdout || got.code != b.code || got.stderr != b.stderr {
+                    acc.violation("C02", &format!("cli-routes-differ:twofiles-vs-{name}"), format!("rg {:?}: the failing stat of the opened second file changed the outcome (exit {} vs {}; {} vs {} bytes)", targs, got.code, b.code, got.stdout.len(), b.stdout.len()), sub, body(b));
+                }
+            }
+            if base.is_none() {
+                base = Some(got);
             }
         }
     }
